@@ -231,10 +231,10 @@ theorem stmt_correct : ∀ (fuel : Nat),
         exact execS_assign K exitJ wf _ n e σ hok
       | ite c t e =>
         simp only [okS, Bool.and_eq_true] at hok
-        exact execS_ite K exitJ wf fuel c t e σ hok.1.1 (fun s => ihS t s hok.1.2) (fun s => ihS e s hok.2)
+        exact execS_ite K exitJ wf fuel c t e σ (condOK_pure K wf.toWF fuel c hok.1.1) (fun s => ihS t s hok.1.2) (fun s => ihS e s hok.2)
       | «while» c b =>
         simp only [okS, Bool.and_eq_true] at hok
-        exact execS_while K exitJ wf fuel c b σ hok.1 (fun s => ihS b s hok.2)
+        exact execS_while K exitJ wf fuel c b σ (condOK_pure K wf.toWF fuel c hok.1) (fun s => ihS b s hok.2)
           (fun s => ihS (.while c b) s (by simp [okS, hok.1, hok.2]))
       | seq ss =>
         simp only [okS] at hok
